@@ -184,6 +184,10 @@ def convert_version(
 
     if model_proto is not None:
         # Update the model proto in-place
-        model_proto.graph.Clear()
+        new_proto = ir.to_proto(model)
+        model_proto.graph.CopyFrom(new_proto.graph)
         del model_proto.functions[:]
-        model_proto.graph.CopyFrom(ir.to_proto(model.graph))
+        model_proto.functions.extend(new_proto.functions)
+        # The declared opset versions must follow the converted graph
+        del model_proto.opset_import[:]
+        model_proto.opset_import.extend(new_proto.opset_import)
